@@ -45,6 +45,19 @@
 #                args[-i], args[:] - after every operation sequence <= 2.
 #   part native  to_native() on every argument list <= N over a linker/-isystem alphabet (group markers, default
 #                include directory stripping).
+#   part libfile "a library file" is a once-only argument whatever its file name looks like: the NAME SHAPE of the library
+#                file is a dimension - (where it lies: bare name, /, absolute directory, relative directory, ../, backslash
+#                separator) x (what it is called: .a, .so, name.so without lib prefix, lib*.so.N, .so.N.N, .so.N.N.N,
+#                multi-digit components, dots inside the name, .dylib, .lib, .dll).  For every class and every shape L, all
+#                sequences <= D over the operations that can add L (append, +=, extend, append_direct, extend_direct,
+#                insert(0,)), `+=` of a plain and of a front argument, the two-element batches that hold L (with itself,
+#                with the plain, with the front argument, both orders; through += and extend_direct), list() and copy();
+#                every read compared with the eager reference and the history invariants.  For D the linker pass-through
+#                form -L<L> takes part as a second argument (kind from the tables).  Only list() observes here: which
+#                library shapes get --start-group/--end-group in to_native is not stated by the property (native part
+#                covers the shapes of its alphabet).
+#   part eqread  `a == b` is a read of BOTH objects: for every pair of histories <= 2 the comparison must say what the
+#                comparison of the two eager lists says (in both directions, and against the plain list).
 #
 # Unspecified corners (never compared; counted where they occur):
 #   * len() before a flush (may over-count pending duplicates)          -> counter len_differs_before_flush
@@ -56,6 +69,8 @@
 #     front" and "defined by what follows it" at the same time -> in no alphabet
 #   * an argument that matches an override table and a once-only table of its class at once (`-Ifoo.a`): the tables
 #     do not say which wins -> in no alphabet (table_kind returns None, the probe counts it as ambiguous)
+#   * a versioned shared-library name without the lib prefix (`z.so.1`) or with more than three numeric components
+#     (`libz.so.1.2.3.4`): the contract names the form path/to/libfoo.so.0.1.0 only -> in no alphabet
 #   (absolute paths given to append_direct/extend_direct are covered by one absolute library path, alone and in
 #    two-element batches with every other argument)
 #
@@ -113,6 +128,33 @@ for _k in STATED.values():
     _k[ABS] = ONCE
     for _a in BARE_ATOMS:
         _k[_a] = PLAIN
+
+
+# Library-file name shapes (part libfile).  "a library file" in the property statement; what counts as one is written down
+# in the comments of mesonbuild/arglist.py ("Match a .so of the form path/to/libfoo.so.0.1.0. Only UNIX shared libraries
+# require this. Others have a fixed extension.") and docs (library file extensions .a .so .dylib .dll .lib).
+LIB_DIRS = collections.OrderedDict([('bare', ''), ('abs', '/usr/lib/'), ('rel', 'sub/'), ('root', '/'), ('parent', '../x/'),
+                                    ('backslash', 'sub\\')])
+LIB_NAMES = collections.OrderedDict([('a', 'libz.a'), ('so', 'libz.so'), ('so.N', 'libz.so.1'), ('so.N.N', 'libz.so.1.2'),
+                                     ('so.N.N.N', 'libz.so.1.2.3'), ('so.NN.NN.N', 'libz.so.10.21.3'), ('dotted.so.N', 'libz-1.0.so.5'),
+                                     ('nolib.so', 'z.so'), ('dylib', 'libz.dylib'), ('lib', 'z.lib'), ('dll', 'z.dll')])
+LIB_SHAPES = [(d + ':' + n, LIB_DIRS[d] + LIB_NAMES[n]) for n in LIB_NAMES for d in LIB_DIRS]
+LIB_PLAIN = {'clike': '-Wall', 'base': '-Wall', 'd': '-O'}
+LIB_FRONT = '-Ia'
+
+
+def stated_library_file(arg):
+    """Is the argument a library file (from the statement/the documented name forms, NOT from the class tables)?"""
+    if arg.startswith('-'):
+        return False
+    base = arg.replace('\\', '/').rsplit('/', 1)[-1]
+    if base.endswith(('.a', '.so', '.dylib', '.dll', '.lib')):
+        return True
+    m = base.rsplit('.so.', 1)
+    if len(m) == 2 and m[0].startswith('lib') and len(m[0]) > 3:
+        comps = m[1].split('.')
+        return 1 <= len(comps) <= 3 and all(c.isascii() and c.isdigit() for c in comps)
+    return False
 
 
 def table_kind(cls, arg):
@@ -872,6 +914,126 @@ def pair_chunk(arg):
     return dict(acc.c), acc.v, dict(acc.vn)
 
 
+# ---- libfile part: the name shape of a library file is a dimension ---------------------------------------------
+def lib_args(clsname, lib):
+    """The arguments of one libfile alphabet: the library file, (D only) its linker pass-through form, a plain and a
+    front override argument."""
+    return [lib] + (['-L' + lib] if clsname == 'd' else []) + [LIB_PLAIN[clsname], LIB_FRONT]
+
+
+def lib_register(clsname, lib):
+    """Enter the kinds of one libfile alphabet into the kind table of the class.  Returns (contradictions between the
+    statement and the tables, arguments the tables leave open)."""
+    kinds = KINDS[clsname]
+    bad, unspecified = [], []
+    tk = table_kind(CLS[clsname], lib)
+    st = ONCE if stated_library_file(lib) else None
+    if st is not None and tk != st:
+        bad.append((clsname, lib, st, tk))
+    kinds[lib] = st if st is not None else tk
+    if clsname == 'd':
+        tk = table_kind(CLS[clsname], '-L' + lib)
+        if tk is None:
+            unspecified.append('-L' + lib)
+        kinds['-L' + lib] = tk
+    return bad, unspecified
+
+
+def lib_ops(clsname, lib):
+    kinds = KINDS[clsname]
+    ops = [('read', ()), ('copy', ())]
+    libs = [a for a in lib_args(clsname, lib)[:-2] if kinds.get(a) is not None]
+    comp = lib_args(clsname, lib)[-2:]
+    for a in libs:
+        for name in ('append', 'iadd', 'extend', 'append_direct', 'extend_direct', 'insert0'):
+            ops.append((name, (a,)))
+    for a in comp:
+        ops.append(('iadd', (a,)))
+    for a in libs:
+        ops.append(('iadd', (a, a)))
+        ops.append(('extend_direct', (a, a)))
+        for b in comp + [x for x in libs if x != a]:
+            ops.append(('iadd', (a, b)))
+            if b in comp:
+                ops.append(('iadd', (b, a)))
+        ops.append(('extend_direct', (a, comp[0])))
+        ops.append(('extend_direct', (comp[0], a)))
+    return ops
+
+
+class ShapeAcc(Acc):
+    """Accumulator that marks every key with the library-file shape class of the case."""
+    suffix = ''
+
+    def viol(self, key, what, replay):
+        Acc.viol(self, key + self.suffix, what, replay)
+
+
+def libfile_chunk(arg):
+    import itertools
+    clsname, depth, shapes = arg
+    acc = ShapeAcc()
+    read_op = ('read', ())
+    n = 0
+    for label, lib in shapes:
+        acc.suffix = ':libfile:' + label
+        ops = lib_ops(clsname, lib)
+        for ln in range(1, depth + 1):
+            for seq in itertools.product(ops, repeat=ln):
+                n += 1
+                adds = sum(o[1].count(lib) for o in seq)
+                if adds >= 2:
+                    acc.c['sequences_offering_the_library_file_more_than_once'] += 1
+                key, model, om, ok = run_case(clsname, list(seq) + [read_op], acc, True, key_idx=ln - 1)
+                acc.c['steps'] += ln + 1
+                if adds >= 2 and model.count(lib) == 1:
+                    acc.c['repeat_expected_to_be_dropped'] += 1
+                elif adds >= 2:
+                    acc.c['repeat_expected_to_stay(direct_insertion)'] += 1
+    return n, dict(acc.c), acc.v, dict(acc.vn)
+
+
+# ---- eqread part: a == b reads both objects ---------------------------------------------------------------------
+def eqread_chunk(arg):
+    clsname, depth, has = arg
+    acc = Acc()
+    kinds = KINDS[clsname]
+    for ha in has:
+        for hb in pair_histories(clsname, depth):
+            for how in ('a == b', 'b == a', 'a == list', 'a != b'):
+                # every comparison on freshly built objects: a comparison merges queues, the next one would see another state
+                R = {'a': fresh(clsname), 'b': fresh(clsname)}
+                M = {'a': [], 'b': []}
+                for r, h in (('a', ha), ('b', hb)):
+                    for o in h:
+                        R[r], _ = step_real(R[r], [], o)
+                        M[r] = ref_step(M[r], o, kinds)
+                pa, pb = bool(R['a'].pre or R['a'].post), bool(R['b'].pre or R['b'].post)
+                if how == 'a == b':
+                    obs, exp = R['a'] == R['b'], M['a'] == M['b']
+                elif how == 'b == a':
+                    obs, exp = R['b'] == R['a'], M['a'] == M['b']
+                elif how == 'a != b':
+                    obs, exp = R['a'] != R['b'], M['a'] != M['b']
+                else:
+                    obs, exp = R['a'] == list(M['a']), True
+                acc.c['comparisons'] += 1
+                if exp:
+                    acc.c['comparisons_expected_equal'] += 1
+                if how == 'a == b' and pb:
+                    acc.c['right_operand_with_pending_queue'] += 1
+                if how == 'a == b' and pa:
+                    acc.c['left_operand_with_pending_queue'] += 1
+                if obs is not exp:
+                    stale = ('right-operand-with-pending-queue-compared-stale' if (how in ('a == b', 'a != b') and pb) else
+                             'left-operand-of-reflected-comparison-with-pending-queue-compared-stale' if (how == 'b == a' and pa) else 'other')
+                    acc.viol('C13:%s:eqread:%s:%s' % (clsname, how.replace(' ', ''), stale),
+                             '%s gave %r, the eager lists %r and %r say %r, after a: %s; b: %s' % (
+                                 how, obs, M['a'], M['b'], exp, '; '.join(opname(o) for o in ha), '; '.join(opname(o) for o in hb)),
+                             {'cls': clsname, 'eqread': {'a': [list(map(list_or, o)) for o in ha], 'b': [list(map(list_or, o)) for o in hb]}})
+    return dict(acc.c), acc.v, dict(acc.vn)
+
+
 # ---- seqread part: the other ways of reading a MutableSequence --------------------------------------------------
 # list(args) goes through __iter__; the backends also read through reversed(args) (last --edition=... wins), args[i]
 # and slices.  Each of them yields ARGUMENTS, so each must yield the eager list.  len() yields a number and stays on
@@ -1219,6 +1381,71 @@ def main():
                     ck.require(tot[rd + '_with_pending_queue'] > 0, 'seqread: %s never ran with a pending queue' % rd)
         bounds.append('seqread: all sequences <= 2 over the operations of each class x %d readers' % (len(SEQ_READERS),))
 
+    lib_cases = 0
+    if ck.want('libfile'):
+        ldepth = ck.q(2, 3)
+        for clsname in classes:
+            open_args = []
+            for label, lib in LIB_SHAPES:
+                ck.require(stated_library_file(lib), 'libfile: %r is not a library file by the documented name forms' % lib)
+                bad, unspec = lib_register(clsname, lib)
+                open_args += unspec
+                for c, a, st, tk in bad:
+                    ck.violation('C13:%s:tables-contradict-statement:once:libfile:%s' % (c, label),
+                                 'the property statement makes the library file %r once-only, the tables of %s make it %s'
+                                 % (a, CLS[c].__name__, KIND_NAMES.get(tk, 'undetermined')), {'cls': c, 'table_kind': a})
+            # one chunk per shape, dealt so that the cheap and the expensive ones mix
+            chunks = [(clsname, ldepth, [sh]) for sh in LIB_SHAPES]
+            n = 0
+            tot = collections.Counter()
+            vcount = 0
+            for cnt, c, v, vn in pmap(libfile_chunk, chunks):
+                n += cnt
+                tot.update(c)
+                vcount += sum(vn.values())
+                for key, what, rp in v:
+                    ck.violation(key, what, rp)
+            lib_cases += n
+            traces += n
+            total_trans += tot['steps']
+            pending_reads += tot['observed_with_pending_queue']
+            ck.part('libfile_' + clsname, shapes=len(LIB_SHAPES), locations=list(LIB_DIRS), names=list(LIB_NAMES.values()),
+                    operations_per_shape=len(lib_ops(clsname, LIB_SHAPES[0][1])), depth=ldepth, sequences=n, violating=vcount,
+                    pass_through_forms_left_open_by_tables=len(open_args),
+                    pass_through_kinds=sorted({KIND_NAMES[KINDS[clsname]['-L' + lib]] for _, lib in LIB_SHAPES
+                                               if KINDS[clsname].get('-L' + lib) is not None}),
+                    **{k: v for k, v in sorted(tot.items())})
+            if not ck.n_viol:
+                ck.require(tot['repeat_expected_to_be_dropped'] > 0, 'libfile: no library file was ever offered twice')
+                ck.require(tot['observed_with_pending_queue'] > 0, 'libfile: no read with a pending queue')
+        bounds.append('libfile: %d library-file name shapes x all sequences <= %d over the operations that add the file' % (len(LIB_SHAPES), ldepth))
+        ck.sample({'libfile_case': ['+= %r' % [LIB_SHAPES[13][1], '-Wall'], '+= %r' % ['-Ia', LIB_SHAPES[13][1]], 'list(args)'],
+                   'expected': ['-Ia', LIB_SHAPES[13][1], '-Wall']})
+
+    eq_cases = 0
+    if ck.want('eqread'):
+        for clsname in classes:
+            has = pair_histories(clsname, 2)
+            nchunks = max(1, min(len(has), NCPU * 2))
+            tot = collections.Counter()
+            vcount = 0
+            found = []
+            for c, v, vn in pmap(eqread_chunk, [(clsname, 2, has[i::nchunks]) for i in range(nchunks)]):
+                tot.update(c)
+                vcount += sum(vn.values())
+                found.extend(v)
+            found.sort(key=lambda x: len(x[2]['eqread']['a']) + len(x[2]['eqread']['b']))
+            for key, what, rp in found:
+                ck.violation(key, what, rp)
+            eq_cases += tot['comparisons']
+            traces += tot['comparisons']
+            total_trans += tot['comparisons']
+            ck.part('eqread_' + clsname, histories_per_object=len(has), max_history=2, violating=vcount, **{k: v for k, v in sorted(tot.items())})
+            ck.require(tot['right_operand_with_pending_queue'] > 0 and tot['left_operand_with_pending_queue'] > 0,
+                       'eqread: no comparison with a pending queue')
+            ck.require(0 < tot['comparisons_expected_equal'] < tot['comparisons'], 'eqread: only one outcome expected')
+        bounds.append('eqread: all pairs of histories <= 2 x 4 comparisons')
+
     if ck.want('native'):
         import itertools
         d0 = dd[-1]
@@ -1263,8 +1490,10 @@ def main():
                    '10 binary operations whose operand is an argument-list object (+=, extend, extend_direct, +, constructor, '
                    'list + object, the object itself and its copy) [x one following operation on any object], every object '
                    're-read afterwards; seqread part = reversed()/indexing/slicing after every sequence <= 2; native part = all '
-                   'lists <= N over 11 linker/-isystem tokens' % ('/'.join('%d' % len(OPSETS[c]) for c in CLASSES), '; '.join(bounds), fdepth),
-              two_object_cases=pair_cases, sequence_protocol_reads=seq_reads,
+                   'lists <= N over 11 linker/-isystem tokens; libfile part = every library-file name shape (location x name form) x all '
+                   'sequences <= D over the operations that add it, alone and in two-element batches; eqread part = a == b after every pair of histories <= 2' % ('/'.join('%d' % len(OPSETS[c]) for c in CLASSES), '; '.join(bounds), fdepth),
+              two_object_cases=pair_cases, sequence_protocol_reads=seq_reads, library_file_shape_sequences=lib_cases,
+              equality_comparisons=eq_cases,
               exhaustive=True)
 
 
@@ -1272,13 +1501,33 @@ def replay(ck):
     d = json.load(open(ck.args.replay))
     clsname = d['cls']
     kinds = KINDS[clsname]
+    # arguments of the libfile part: library-file name shapes (and their D pass-through form) get their kind as in that part
+    for o in d.get('ops', []):
+        for a in o[1]:
+            if a not in kinds:
+                lib = a[2:] if a.startswith('-L') else a
+                lib_register(clsname, lib)
+                print('replay: %r is %s' % (a, KIND_NAMES.get(kinds.get(a), 'left open by the tables')))
     if 'table_kind' in d:
         a = d['table_kind']
-        st, tk = STATED[clsname].get(a), table_kind(CLS[clsname], a)
+        st, tk = STATED.get(clsname, {}).get(a) or (ONCE if stated_library_file(a) else None), table_kind(CLS[clsname], a)
         print('replay: class=%s argument %r: the property statement says %s, the tables of %s say %s'
               % (clsname, a, KIND_NAMES.get(st), CLS[clsname].__name__, KIND_NAMES.get(tk, 'undetermined')))
         print('replay verdict: %s' % ('violation reproduced' if st != tk else 'no violation'))
         sys.exit(1 if st != tk else 0)
+    if 'eqread' in d:
+        ha = tuple((o[0], tuple(o[1])) for o in d['eqread']['a'])
+        hb = tuple((o[0], tuple(o[1])) for o in d['eqread']['b'])
+        print('replay: class=%s, a: %s; b: %s; then the comparisons, each on freshly built objects' % (
+            clsname, '; '.join(opname(o) for o in ha), '; '.join(opname(o) for o in hb)))
+        PAIR_HIST[clsname, 2] = [hb]
+        acc = Acc()
+        eqread_chunk((clsname, 2, [ha]))
+        c, v, vn = eqread_chunk((clsname, 2, [ha]))
+        for k, what, rp in v:
+            print('  STILL VIOLATES %s: %s' % (k, what))
+        print('replay verdict: %s' % ('violation reproduced' if v else 'no violation'))
+        sys.exit(1 if v else 0)
     if 'pair' in d:
         p = d['pair']
         ha = tuple((o[0], tuple(o[1])) for o in p['a'])
